@@ -331,6 +331,15 @@ pub fn gen_len(t: &mut Tape, big_per_mille: u32) -> usize {
     }
 }
 
+/// A TLV type byte: one time in three a registered code (those are the ones code is likely to treat specially).
+pub fn gen_kind(t: &mut Tape) -> u8 {
+    if t.chance(1, 3) {
+        enc::TYPE_CODES[t.below(12) as usize].1
+    } else {
+        t.byte()
+    }
+}
+
 pub fn gen_addr(t: &mut Tape) -> RefAddr2 {
     let fam = t.below(4) as u8;
     crate::oracle::v2::decode_addr(fam, &gen::gen_addr_block(t, fam))
@@ -346,7 +355,7 @@ pub fn gen_val(t: &mut Tape, big_per_mille: u32) -> Val {
                         0 => t.usize_in(0, 24),
                         _ => *t.pick(&[255usize, 256, 257]),
                     };
-                    (t.byte(), len, gen_seed(t))
+                    (gen_kind(t), len, gen_seed(t))
                 })
                 .collect();
             let advance = t.usize_in(0, n + 1);
@@ -366,8 +375,8 @@ pub fn gen_val(t: &mut Tape, big_per_mille: u32) -> Val {
         }
         1 => Val::Bytes { len: gen_len(t, big_per_mille), seed: gen_seed(t) },
         2 => Val::Addr(gen_addr(t)),
-        3 => Val::Tlv { kind: t.byte(), len: gen_len(t, big_per_mille), seed: gen_seed(t) },
-        4 => Val::TupleU8 { kind: t.byte(), len: gen_len(t, big_per_mille), seed: gen_seed(t) },
+        3 => Val::Tlv { kind: gen_kind(t), len: gen_len(t, big_per_mille), seed: gen_seed(t) },
+        4 => Val::TupleU8 { kind: gen_kind(t), len: gen_len(t, big_per_mille), seed: gen_seed(t) },
         5 => Val::TupleType { ty: t.below(12) as usize, len: gen_len(t, big_per_mille), seed: gen_seed(t) },
         6 => Val::Section { len: gen_len(t, big_per_mille), seed: gen_seed(t) },
         _ => Val::Type(t.below(12) as usize),
@@ -438,12 +447,44 @@ pub fn gen_history(t: &mut Tape, big_per_mille: u32) -> History {
                 }
                 Op::Payloads { vs, native }
             }
-            4 => Op::WriteTlv { kind: t.byte(), len: gen_len(t, big_per_mille), seed: gen_seed(t) },
+            4 => Op::WriteTlv { kind: gen_kind(t), len: gen_len(t, big_per_mille), seed: gen_seed(t) },
             _ => Op::WriteTlvType { ty: t.below(12) as usize, len: gen_len(t, big_per_mille), seed: gen_seed(t) },
         };
         ops.push(op);
     }
-    History { ctor, ops }
+    let mut h = History { ctor, ops };
+    relate_explicit_lengths(t, &mut h);
+    h
+}
+
+/// One history in five: an explicit length somewhere in it is replaced by a value RELATED to the history - the true
+/// number of bytes after the fixed part at build time, that number at the moment of the call, or the value of another
+/// set_length call (so that the same value is set twice). Unrelated random values never coincide with these.
+pub fn relate_explicit_lengths(t: &mut Tape, h: &mut History) {
+    if !t.chance(1, 5) {
+        return;
+    }
+    let sets: Vec<usize> = h.ops.iter().enumerate().filter(|(_, o)| matches!(o, Op::SetLength(Some(_)))).map(|(i, _)| i).collect();
+    if sets.is_empty() {
+        return;
+    }
+    let at = sets[t.below(sets.len() as u32) as usize];
+    let base = match &h.ctor {
+        Ctor::New { .. } => 0usize,
+        Ctor::WithAddresses { addr, .. } => NEED[enc::family_code(addr) as usize],
+    };
+    let size_upto = |n: usize| -> usize { base + h.ops[..n].iter().flat_map(op_values).map(|v| ref_size(&v)).sum::<usize>() };
+    let v = match t.below(3) {
+        0 => size_upto(h.ops.len()),
+        1 => size_upto(at),
+        _ => match &h.ops[sets[t.below(sets.len() as u32) as usize]] {
+            Op::SetLength(Some(x)) => *x as usize,
+            _ => 0,
+        },
+    };
+    if v <= 65535 {
+        h.ops[at] = Op::SetLength(Some(v as u16));
+    }
 }
 
 /// Histories built in phases around the 65535-byte threshold: [set_length] small writes [set_length] big writes that
@@ -473,9 +514,9 @@ pub fn gen_history_phased(t: &mut Tape) -> History {
         match t.below(7) {
             0 => Op::Payload { v: Val::Bytes { len, seed }, by_ref: t.coin() },
             1 => Op::Payload { v: Val::Section { len, seed }, by_ref: false },
-            2 => Op::Payload { v: Val::Tlv { kind: t.byte(), len: len.saturating_sub(3), seed }, by_ref: false },
-            3 => Op::Payload { v: Val::TupleU8 { kind: t.byte(), len: len.saturating_sub(3), seed }, by_ref: false },
-            4 => Op::WriteTlv { kind: t.byte(), len: len.saturating_sub(3), seed },
+            2 => Op::Payload { v: Val::Tlv { kind: gen_kind(t), len: len.saturating_sub(3), seed }, by_ref: false },
+            3 => Op::Payload { v: Val::TupleU8 { kind: gen_kind(t), len: len.saturating_sub(3), seed }, by_ref: false },
+            4 => Op::WriteTlv { kind: gen_kind(t), len: len.saturating_sub(3), seed },
             5 => Op::Payloads { vs: vec![Val::Bytes { len: len / 2, seed }, Val::Bytes { len: len - len / 2, seed: seed ^ 5 }], native: t.coin() },
             _ => Op::WriteTlvType { ty: t.below(12) as usize, len: len.saturating_sub(3), seed },
         }
@@ -538,7 +579,9 @@ pub fn gen_history_phased(t: &mut Tape) -> History {
         }
         ops.push(o);
     }
-    History { ctor, ops }
+    let mut h = History { ctor, ops };
+    relate_explicit_lengths(t, &mut h);
+    h
 }
 
 fn int_ty(v: &Val) -> usize {
@@ -558,8 +601,8 @@ fn retype(like: &Val, t: &mut Tape, big: u32) -> Val {
         }
         Val::Bytes { .. } => Val::Bytes { len: gen_len(t, big), seed: gen_seed(t) },
         Val::Addr(_) => Val::Addr(gen_addr(t)),
-        Val::Tlv { .. } => Val::Tlv { kind: t.byte(), len: gen_len(t, big), seed: gen_seed(t) },
-        Val::TupleU8 { .. } => Val::TupleU8 { kind: t.byte(), len: gen_len(t, big), seed: gen_seed(t) },
+        Val::Tlv { .. } => Val::Tlv { kind: gen_kind(t), len: gen_len(t, big), seed: gen_seed(t) },
+        Val::TupleU8 { .. } => Val::TupleU8 { kind: gen_kind(t), len: gen_len(t, big), seed: gen_seed(t) },
         Val::TupleType { .. } => Val::TupleType { ty: t.below(12) as usize, len: gen_len(t, big), seed: gen_seed(t) },
         Val::Section { .. } => Val::Section { len: gen_len(t, big), seed: gen_seed(t) },
         Val::Type(_) => Val::Type(t.below(12) as usize),
